@@ -3,6 +3,22 @@ vf.gen.cfggen, analyse them with androguard, observe basic blocks / CFG / except
 the reference model vf.model.cfg. The same oracles run over every method of the shipped DEX/APK files.
 
 Each check module (c10.py, c11.py, c12.py, c40.py) binds PROP and re-exports shards / run_shard / replay.
+
+API histories. The statements quantify over "every method" of a DEX object, not over "the first analysis of a freshly
+parsed file"; a share of the cases therefore continues after the first analysis (the history is part of the case:
+drawn by the strategy for generated batches, a function of the file for shipped ones, case['history'] in replay):
+  'reanalyse'         the SAME parsed DEX object is analysed again (a second Analysis(d) for all methods, then one
+                      more MethodAnalysis(d, m)); the first analysis has been queried by the oracle in between. The
+                      oracle of the property must hold for every later analysis as well, judged against that analysis'
+                      own blocks (identity). Buckets 'history:reanalyse:<clause>'.
+  'set-instructions'  (generated methods without tries) the same abstract method is assembled in another layout
+                      (1-4 nops in front, optionally a payload moved: vf.gen.cfggen.relayout), the new bytes are
+                      disassembled with androguard's own LinearSweepAlgorithm and installed with the documented setter
+                      EncodedMethod.set_instructions(); a new MethodAnalysis(d, m) is judged against the model of the
+                      NEW layout. Methods with tries are left out: the setter replaces the instruction list only, the
+                      try table of the code item keeps the old addresses, so the statement about try starts / handler
+                      addresses has no sound reading there. Buckets 'history:set-instructions:<clause>'.
+Counters 'history:<name>:methods' say how many method cases ran a history.
 """
 import hashlib
 import os
@@ -200,9 +216,11 @@ def oracle_c12(mm, ob):
         for e in ea.exceptions:
             hb = e[2] if len(e) > 2 else None
             if hb is None or hb.get_start() != e[1] or bstart.get(e[1]) is not hb:
+                what = 'no block' if hb is None else 'block@%d' % hb.get_start()
+                if hb is not None and hb.get_start() == e[1]:
+                    what = 'a block object [%d,%d) that is not a block of this analysis of the method' % (hb.get_start(), hb.get_end())
                 out.append(('handlers:block', 'block [%d,%d): handler (%s -> %d) is linked to %s, not to the block starting at the handler address'
-                            % (b.get_start(), b.get_end(), e[0], e[1], 'no block' if hb is None else 'block@%d' % hb.get_start()),
-                            {'block': bdesc(b)}))
+                            % (b.get_start(), b.get_end(), e[0], e[1], what), {'block': bdesc(b), 'handler_entry_length': len(e)}))
     return out
 
 
@@ -340,7 +358,15 @@ def batch_strategy(prop, tier):
         one = CG.abstract_method(want_try=True, **kw)
     else:
         one = CG.abstract_method(**kw)
-    return st.lists(one, min_size=1, max_size=6, unique_by=repr)
+    return st.tuples(st.lists(one, min_size=1, max_size=6, unique_by=repr), st.sampled_from(HISTORY_DRAW[prop]))
+
+
+# which history a generated batch continues with (None first: shrinking drops the history when it is not needed)
+HISTORY_DRAW = {'C10': [None, None, 'reanalyse', 'set-instructions'],
+                'C11': [None, None, 'reanalyse', 'set-instructions'],
+                'C12': [None, None, 'reanalyse', 'reanalyse'],          # every C12 method has tries: no set-instructions
+                'C40': [None, None, 'reanalyse', 'set-instructions']}
+SHIPPED_REANALYSE_MAX = 100000                  # shipped DEX files up to this size are analysed twice
 
 
 def analyse(data, xref):
@@ -361,10 +387,23 @@ def _model_from_bytes(data):
     return out
 
 
-def check_dex(ctx, prop, data, case, models=None, only=None, record=True, feats=None, key_prefix=b'', limit=None, stride=1):
+def _skip_reason(prop, mm, ob):
+    if [(it.off, it.length) for it in mm.items] != ob.tiling():
+        # the disassembly itself differs from the reference sweep: that is C02's subject, not ours
+        return 'disassembly-differs-from-reference-sweep'
+    if prop != 'C40' and any(it.kind == 'ins' and it.op in (0x2b, 0x2c) and
+                             (mm.payload_of(it) is None or mm.payload_target(it) % 4) for it in mm.items):
+        return 'switch-payload-not-4-byte-aligned'              # DESIGN "S": only C40 looks at those
+    return None
+
+
+def check_dex(ctx, prop, data, case, models=None, only=None, record=True, feats=None, key_prefix=b'', limit=None, stride=1,
+              history=None, relayouts=None):
     """Run the oracle of `prop` over the methods of one DEX.
     models: {method name: MethodModel} for generated files (from the assembler's item list); None = derive the
-    models from the bytes with the own reader + sweep (shipped files, replay)."""
+    models from the bytes with the own reader + sweep (shipped files, replay).
+    history: None | 'reanalyse' | 'set-instructions' (module docstring); relayouts: {method name: (new insns bytes,
+    MethodModel of the new layout)} for 'set-instructions'."""
     try:
         d, dx = analyse(data, xref=(prop == 'C40'))
     except Exception:
@@ -373,6 +412,7 @@ def check_dex(ctx, prop, data, case, models=None, only=None, record=True, feats=
     own = _model_from_bytes(data) if models is None else None
     D = {}
     n = taken = 0
+    done = []                           # (EncodedMethod, MethodModel, case) of the methods judged in the first analysis
     for m in d.get_encoded_methods():
         if m.get_code() is None:
             continue
@@ -405,17 +445,14 @@ def check_dex(ctx, prop, data, case, models=None, only=None, record=True, feats=
             except M.ModelError:
                 ctx.count('skipped:own-sweep-rejects-code')
                 continue
-        if [(it.off, it.length) for it in mm.items] != ob.tiling():
-            # the disassembly itself differs from the reference sweep: that is C02's subject, not ours
-            ctx.count('skipped:disassembly-differs-from-reference-sweep')
-            continue
-        if prop != 'C40' and any(it.kind == 'ins' and it.op in (0x2b, 0x2c) and
-                                 (mm.payload_of(it) is None or mm.payload_target(it) % 4) for it in mm.items):
-            ctx.count('skipped:switch-payload-not-4-byte-aligned')     # DESIGN "S": only C40 looks at those
+        why = _skip_reason(prop, mm, ob)
+        if why:
+            ctx.count('skipped:' + why)
             continue
         D[id(ma)] = (ma, set(ob.offsets))
         res = ORACLES[prop](mm, ob)
         nt = nontrivial(prop, mm, ob)
+        done.append((m, mm, mcase))
         if record:
             labels = ['blocks:%d' % min(len(ob.blocks), 12) if len(ob.blocks) < 12 else 'blocks:12+']
             if feats and name in feats:
@@ -425,6 +462,8 @@ def check_dex(ctx, prop, data, case, models=None, only=None, record=True, feats=
                     for t in mm.tries_overlapping(b.get_start(), b.get_end()):
                         labels.append('c12:' + _block_try_shape(b, t))
                 labels = sorted(set(labels))
+            if history == 'reanalyse' or (history == 'set-instructions' and relayouts and name in relayouts):
+                labels.append('history:' + history)
             ctx.case(nontrivial=nt, key=key_prefix + hashlib.blake2b(b''.join(it.raw for it in mm.items) + repr(mm.tries).encode(),
                                                                       digest_size=8).digest(),
                      labels=labels,
@@ -438,32 +477,115 @@ def check_dex(ctx, prop, data, case, models=None, only=None, record=True, feats=
         ctx.count('xref_offsets_checked', nchecked)
         for (bucket, msg, detail) in res:
             ctx.fail(bucket, dict(case, observed=detail), msg)
+    if history == 'reanalyse':
+        history_reanalyse(ctx, prop, d, done)
+    elif history == 'set-instructions':
+        history_set_instructions(ctx, prop, d, done, relayouts or {})
+    elif history is not None:
+        raise HarnessError('unknown history %r' % (history,))
 
 
-def run_generated(ctx, prop, methods):
-    # Hypothesis re-uses earlier examples: a method already evaluated without mismatch in this shard is not
-    # analysed again (the oracle is a pure function of the method)
+def _judge_again(ctx, prop, hist, what, m, ma, mm, mcase, extra=None):
+    """the per-method oracle of `prop` on a later analysis `ma` of method m; -> True when it was evaluated"""
+    ob = Obs(m, ma)
+    why = _skip_reason(prop, mm, ob)
+    if why:
+        ctx.count('history:%s:skipped:%s' % (hist, why))
+        return False
+    for (bucket, msg, detail) in ORACLES[prop](mm, ob):
+        ctx.fail('history:%s:%s' % (hist, bucket), dict(mcase, history=hist, observed=detail, **(extra or {})),
+                 '%s: %s' % (what, msg))
+    return True
+
+
+def history_reanalyse(ctx, prop, d, done):
+    """The same parsed DEX object is analysed again; the first analysis was queried by the oracle in between. The
+    clauses of the property hold for the blocks of every analysis - in particular the handler blocks (C12), the child /
+    father blocks (C11) and the payload objects (C40) a later analysis reports are its own (identity)."""
+    if not done:
+        return
+    from androguard.core.analysis.analysis import Analysis, MethodAnalysis
+    try:
+        dx2 = Analysis(d)
+    except Exception:
+        ctx.fail('history:reanalyse:exception:analysis', dict(done[0][2], history='reanalyse'), traceback.format_exc())
+        return
+    for k, (m, mm, mcase) in enumerate(done):
+        try:
+            ok = _judge_again(ctx, prop, 'reanalyse', 'second Analysis() of the same DEX object', m, dx2.get_method(m), mm, mcase)
+            if ok and k == 0:
+                _judge_again(ctx, prop, 'reanalyse', 'third analysis (MethodAnalysis(d, m)) of the same DEX object', m,
+                             MethodAnalysis(d, m), mm, mcase)
+        except Exception:
+            ctx.fail('history:reanalyse:exception:observe', dict(mcase, history='reanalyse'), traceback.format_exc())
+            continue
+        if ok:
+            ctx.count('history:reanalyse:methods')
+
+
+def history_set_instructions(ctx, prop, d, done, relayouts):
+    """After the first analysis the instruction list of a method is replaced through the documented setter
+    EncodedMethod.set_instructions() by the disassembly (androguard's LinearSweepAlgorithm) of another layout of the same
+    abstract method; a new MethodAnalysis is judged against the model of the new layout."""
+    from androguard.core import dex
+    from androguard.core.analysis.analysis import MethodAnalysis
+    for (m, mm, mcase) in done:
+        if mcase['method'] not in relayouts:
+            continue
+        code2, mm2 = relayouts[mcase['method']]
+        if mm.tries or mm2.tries:
+            ctx.count('history:set-instructions:skipped:method-has-tries')      # the setter does not move the try table
+            continue
+        try:
+            new = list(dex.LinearSweepAlgorithm.get_instructions(d.get_class_manager(), len(code2) // 2, code2, 0))
+            m.set_instructions(new)
+            ok = _judge_again(ctx, prop, 'set-instructions', 'MethodAnalysis after set_instructions(another layout)', m,
+                              MethodAnalysis(d, m), mm2, mcase, extra={'new_code': code2})
+        except Exception:
+            ctx.fail('history:set-instructions:exception', dict(mcase, history='set-instructions', new_code=code2),
+                     traceback.format_exc())
+            continue
+        if ok:
+            ctx.count('history:set-instructions:methods')
+
+
+def _relayout_params(am):
+    """(nops, move) of the second layout: a function of the abstract method"""
+    h = hashlib.blake2b(repr(am).encode(), digest_size=2).digest()
+    return 1 + h[0] % 4, bool(h[1] & 1)
+
+
+def run_generated(ctx, prop, value):
+    methods, hist = value
+    # Hypothesis re-uses earlier examples: a method already evaluated without mismatch in this shard (with the same
+    # history, or - for a case without history - with any) is not analysed again (the oracle is a pure function of it)
     seen = ctx.__dict__.setdefault('_cfg_seen', set())
     fresh = []
     for am in methods:
         k = hashlib.blake2b(repr(am).encode(), digest_size=8).digest()
-        if k in seen:
+        if (k, hist) in seen:
             ctx.count('duplicate_methods_skipped')
         else:
             fresh.append((k, am))
     if not fresh:
         return
     methods = [am for _k, am in fresh]
-    data, lows = CG.build_dex(methods)
+    data, lows, ix = CG.build_dex(methods, with_ix=True)
     models = {}
     feats = {}
+    relayouts = {}
     for am, (name, low) in zip(methods, lows):
         models[name] = M.MethodModel(M.items_from_emitted(low.items), M.tries_from_dexgen(low.tries, low.handlers))
         feats[name] = CG.features(am, low)
+        if hist == 'set-instructions' and not am['tries']:
+            nops, move = _relayout_params(am)
+            low2 = CG.assemble_method(CG.relayout(am, nops, move), ix)
+            relayouts[name] = (bytes(low2.code), M.MethodModel(M.items_from_emitted(low2.items), []))
     before = sum(ctx.fail_counts.values())
-    check_dex(ctx, prop, data, {'dex': data}, models=models, feats=feats)
+    check_dex(ctx, prop, data, {'dex': data}, models=models, feats=feats, history=hist, relayouts=relayouts)
     if sum(ctx.fail_counts.values()) == before:
-        seen.update(k for k, _am in fresh)
+        seen.update((k, hist) for k, _am in fresh)
+        seen.update((k, None) for k, _am in fresh)
 
 
 # ---------------------------------------------------------------------------------------------------
@@ -549,7 +671,8 @@ def run_shard(ctx, prop, shard):
         _, files, limit, stride = shard
         for (rel, entry) in files:
             data = load_shipped(rel, entry)
-            check_dex(ctx, prop, data, {'file': rel, 'entry': entry}, key_prefix=b'shipped', limit=limit, stride=stride)
+            check_dex(ctx, prop, data, {'file': rel, 'entry': entry}, key_prefix=b'shipped', limit=limit, stride=stride,
+                      history='reanalyse' if len(data) <= SHIPPED_REANALYSE_MAX else None)
             ctx.label('shipped-dex-files')
 
 
@@ -563,4 +686,12 @@ def replay(ctx, prop, case):
         only = {case['code_off']}
     elif case.get('method') is not None:
         only = {case['method']}
-    check_dex(ctx, prop, data, {k: v for k, v in case.items() if k in ('dex', 'file', 'entry')}, only=only)
+    hist = case.get('history')
+    relayouts = None
+    if hist == 'set-instructions':
+        if case.get('method') is None or case.get('new_code') is None:
+            raise HarnessError("a 'set-instructions' case needs 'method' and 'new_code'")
+        code2 = bytes(case['new_code'])
+        relayouts = {case['method']: (code2, M.MethodModel(M.items_from_code(code2), []))}
+    check_dex(ctx, prop, data, {k: v for k, v in case.items() if k in ('dex', 'file', 'entry')}, only=only,
+              history=hist, relayouts=relayouts)
